@@ -616,6 +616,13 @@ class MetaClass(object):
             kwargs = dict()
             for key, value in link.key_map.items():
                 kwargs[key] = referential_attributes[value]
+                ty = (self.attribute_type(value) or '').upper()
+                if (kwargs[key] is None or
+                    (ty == 'UNIQUE_ID' and kwargs[key] == 0) or
+                    (ty == 'STRING' and kwargs[key] == '')):
+                    # null referential values refer to nothing
+                    kwargs = None
+                    break
             
             if not kwargs:
                 continue
